@@ -181,6 +181,11 @@ static void *world_main(void *arg)
 	int e;
 
 	p_sigmask[sx_tid()] = ~0UL;
+	if (sx_opt("twoloops", 0) == 2) {
+		extern int sxh_loop3_ready(void *);
+		if (!sxh_loop3_ready(NULL))
+			sx_block_until(sxh_loop3_ready, NULL, -1);
+	}
 	for (e = 0; e < nEvents; e++) {
 		struct crec *cand[MAXC];
 		int n = 0, i, kind;
@@ -247,6 +252,13 @@ static void *loop2_main(void *arg)
 /* second loop thread that owns all the watched interests; the main thread (whose SIGCHLD interest is the
  * one that gets woken) does the reaping, so several statuses can queue up on one interest */
 static int n_for_loop3;
+static int loop3_ready;	/* interests for children that exist already are in place (a child that changed state before
+			 * its interest was registered is outside the property: that is what register_spawn is for) */
+
+int sxh_loop3_ready(void *arg)
+{
+	return loop3_ready;
+}
 
 /* the owner gives up an interest on its own initiative, at a moment unrelated to the child's fate */
 static void spont_fn(void *c)
@@ -267,6 +279,7 @@ static void *loop3_main(void *arg)
 	iv_init();
 	for (i = 0; i < n_for_loop3; i++)
 		do_register(&C[i], 0);
+	loop3_ready = 1;
 	if (sx_opt("spont", -1) >= 0) {
 		IV_TIMER_INIT(&spont);
 		spont.cookie = &C[sx_opt("spont", -1)];
@@ -380,5 +393,18 @@ void sx_main(void)
 	for (i = 0; i < nC; i++)
 		sx_assert(!(C[i].registered && C[i].owner == sx_tid()), "C07.iv_main-returned-with-wait-interest");
 	sx_cover("wait.loop-returned-after-last-unregister");
+	if (sx_opt("twoloops", 0) == 2) {
+		/* this thread is done with child processes; the other loop goes on and must from now on be told
+		 * about its children itself */
+		extern int sxh_never(void *);
+		iv_deinit();
+		sx_cover("wait.reaping-thread-left");
+		sx_block_until(sxh_never, NULL, -1);
+	}
 	sx_end();
+}
+
+int sxh_never(void *arg)
+{
+	return 0;
 }
